@@ -136,4 +136,16 @@ impl Reader {
     pub fn samples(&self) -> &[Sample] {
         self.reader.samples()
     }
+
+    /// Verification hook: a read-only snapshot of the per-record accumulators, as
+    /// `(counts, totals, number of skipped samples, projection scratch buffer)`.
+    #[cfg(feature = "verif")]
+    pub fn verif_state(&self) -> (Vec<usize>, Vec<usize>, usize, Option<Vec<usize>>) {
+        (
+            self.counts.to_vec(),
+            self.totals.to_vec(),
+            self.skipped_samples.len(),
+            self.projection.as_ref().map(|p| p.verif_to_buf()),
+        )
+    }
 }
